@@ -17,6 +17,18 @@ CHECKS = {
         technique="relational oracle on executions: exact thermodynamic identities between getters of one state, metamorphic (lambda V, lambda N) pairs",
         ref="DESIGN.md 2/C02",
     ),
+    "C04": dict(
+        text="Runtime monitoring of PhaseEquilibrium::pure over a deterministic, completely enumerated grid: every pure record of the shipped PC-SAFT collections (~2150), SAFT-VR Mie (lafitte2013) and SAFT-VRQ Mie (>=0.6 T_c, helium FH2 excepted) x 28 (quick) / 217 (thorough) reduced temperatures in [0.45,0.99] of the model's vapour-liquid critical temperature must converge (success clause; the 7 records that fail today are KNOWN-FINDING F10); on every Ok: equal T (exact), equal mu (1e-7 kT), equal p relative to each phase's stiffness, rho_v<rho_l, both phases mechanically stable, hook-trace 'Ok only after a converged event'; inverse problem pure(p_sat(T)); spinodal-start fallback forced through a failpoint agrees to 1e-8; PhaseDiagram::pure with random n in [3,200] has n strictly monotone states ending in the critical point; vapor_pressure / boiling_temperature / vle_pure_comps on mixtures equal the pure-model call; random PR/PeTS/uv models with random solver options: conditions whenever Ok.",
+        note="The model's own critical temperature (highest-temperature critical point found from several starts) defines the reduced grid. Failpoints only make a stage return an error it can legitimately return.",
+        technique="exhaustive enumeration of a finite success grid + relational oracle on every converged execution + trace specification over hook events + fault injection (failpoints) into the initialisation cascade",
+        ref="DESIGN.md 2/C04",
+    ),
+    "C06": dict(
+        text="Runtime monitoring of State::critical_point / critical_point_binary / spinodal: for every pure shipped record (unguided, guided by initial temperatures in [0.5,1.6] T_c, and with the 300/700/500 K trial ladder forced through failpoints) dp/dV and d2p/dV2 vanish (1e-6 of rho k T / V) at positive pressure; random Peng-Robinson triples reproduce (T_c,p_c) (2e-4, 5-digit textbook constants); mixtures: smallest eigenvalue of the scaled composition Hessian and the cubic form along its eigenvector, both recomputed independently from dmu_dni with nalgebra and finite differences, vanish (1e-4); binary critical points echo T / reproduce p; spinodals have vanishing dp/dV or eigenvalue, bracket the critical density and lie inside the binodal. Recorded defects F18 (negative-pressure stationary points of SAFT-VR Mie) and F19 (spinodal returns the vapour branch twice at low T) are KNOWN-FINDING.",
+        note="Mixture criticality is recomputed outside critical_point.rs; tolerance 1e-4 covers the finite-difference error of the cubic form. Positive pressure is demanded for pure substances only, as the statement says.",
+        technique="relational oracle on executions: defining conditions recomputed independently at every returned state; fault injection into the trial-temperature ladder",
+        ref="DESIGN.md 2/C06",
+    ),
     "C08": dict(
         text="Differential monitoring of pairs of code paths for the same model on random states: functional vs EoS (PC-SAFT x 3 FMT versions, pure-optimised and mixture paths, gc-PC-SAFT, PeTS, SAFT-VRQ Mie; A, p, S, mu, dp/dV, dp/dT, dS/dT, dmu/dN), FMT vs harness BMCSL closed form, enum and ideal-gas wrappers vs bare models, ePC-SAFT without ions vs PC-SAFT, SAFT-VRQ Mie FH0 vs SAFT-VR Mie monomers, analytic vs Newton association at all dual orders, homosegmented GC vs hand-combined record, PR vs textbook closed form in SI. Recorded defects F14-F16 are reported as KNOWN-FINDING.",
         note="Pair tolerances 1e-9..1e-13 scaled by the state's residual energy scale (1e-3 for the VRQ/VR Mie pair whose hard-sphere diameters use different quadratures; relaxed at low density for functionals). Harness closed forms (BMCSL, PR, GC combining rules) are trusted.",
@@ -36,6 +48,18 @@ CHECKS = {
         ref="DESIGN.md 2/C13",
     ),
 
+    "C14": dict(
+        text="Runtime monitoring of parameter construction: synthetic JSON collections (shuffled order, binary records in either orientation, colliding identifier strings, every IdentifierOption) queried with every ordered subset up to size 4 through from_json / from_multiple_json for nine model kinds, plus sampled queries on the shipped files: component order = query order, k_ij found in either orientation, default when absent, duplicate/missing queries rejected, behaviour equal to from_records; group contribution (homo PC-SAFT, hetero gc-PC-SAFT, Joback): permutations of the segment list (exhaustive up to 4 segments) give identical parameters and match a harness reference implementation of the documented combining rules; serde round trip of every shipped record of every model type reproduces records() and behaviour.",
+        note="Harness reference implementations of the combining rules are trusted; serde_json without float_roundtrip moves numbers by <= 1 ulp, allowed.",
+        technique="differential / reference-model oracle on executions of the parameter API over enumerated and seeded queries, repeated to expose hash-order dependence",
+        ref="DESIGN.md 2/C14",
+    ),
+    "C15": dict(
+        text="Exhaustive enumeration of every JSON file under parameters/ (29 files, 3110 records, rehner2023_binary.json excluded by name): parses with its model's record type and serialises back to the same keys, unique lookup identifiers, positive m/sigma/epsilon/molar weight for pure records and for every assembled gc substance, binary files reference only existing substances/segments, every gc substance assembles from every shipped segment table and from the Joback groups (valence and formula mass checked), every pure PC-SAFT / SAFT-VR Mie / SAFT-VRQ Mie record yields a vapour-liquid critical point at positive plausible (T_c,p_c), a saturation curve on a fixed reduced-temperature grid and finite p,h,s,mu,c_p along it. Records whose saturation solve fails today are KNOWN-FINDING F10.",
+        note="Segment tables are increments (published tables contain a negative m for >C<), positivity is therefore demanded of assembled molecules. The file-to-record-type table is part of the check; a new or missing file makes the run inconclusive.",
+        technique="exhaustive enumeration of the shipped records driving the real loaders and solvers, with relational oracles per record",
+        ref="DESIGN.md 2/C15",
+    ),
 }
 
 NOT_YET = {}
